@@ -106,7 +106,7 @@ PAIRS = [
     ("default-parser-two-strings-not-in-the-first-language", "default-fr-tz", "default-fr"),
 ]
 QUICK_WARM = ["same-config-same-language", "same-call-twice", "settings-differ-irrelevant-field", "shared-settings-dict-fr-vs-en",
-              "skip-tokens-differ", "parse-vs-search", "relative-base-differs", "default-parser-tz-string-vs-other-language",
+              "skip-tokens-differ", "parse-vs-search", "relative-base-differs",
               "same-config-fr-custom-settings", "default-parser-two-strings-not-in-the-first-language"]
 QUICK_WARM_REV = ["relative-base-differs", "same-config-same-language", "settings-differ-irrelevant-field"]
 QUICK_COLD = ["shared-settings-dict-fr-vs-en", "relative-base-differs", "equal-settings-that-matter"]
